@@ -173,7 +173,7 @@ def shard_heater(sh: Shard, combos, seed):
             spref = refs[K.KEY_SETPOINT_G]
             if spref.rw is not None and not isinstance(units, tuple):
                 conv0 = (lambda x: x / 18.0) if units == "C" else (lambda x: (x + 320) / 10.0)
-                for raw in [270, 271, 300, 541, 701, 719, 720] + [r.randrange(270, 721) for _ in range(8)]:
+                for raw in [0, 1, 18, 270, 271, 300, 541, 701, 719, 720] + [r.randrange(270, 721) for _ in range(8)]:
                     bb = put_word(b0, spref.pos, (raw ^ 0x155) & 0xFFFF)
                     if tables.ref_of(acc[K.KEY_TEMP_UNITS]).decode(bb) != units:
                         continue
@@ -183,10 +183,16 @@ def shard_heater(sh: Shard, combos, seed):
                         sh.evaluations += 1
                         sh.count("heater_setter_writes")
                         try:
+                            # (whole numbers also as int and Decimal: 0 degrees is a temperature, not "nothing")
+                            val = conv0(raw)
+                            if val == int(val) and r.random() < 0.5:
+                                from decimal import Decimal
+
+                                val = r.choice([int(val), Decimal(int(val))])
                             if how.startswith("async"):
-                                drive(heater.async_set_target_temperature(conv0(raw)))
+                                drive(heater.async_set_target_temperature(val))
                             else:
-                                heater.set_target_temperature(conv0(raw))
+                                heater.set_target_temperature(val)
                         except Exception as e:
                             sh.violation("C14:heater-raise", f"heater.{how}({conv0(raw)}) raised {e!r}", {"tables": combo, "units": units, "raw": raw, "exc": describe_exc(e)})
                             continue
